@@ -267,7 +267,8 @@ def table(rng, W, named, rows=None, cols=None):
     cols = cols or rng.randint(1, 4)
     out = ["{|" + rng.choice(["", ' class="wikitable"', ' border="1"'])]
     if rng.random() < 0.3:
-        out.append("|+ " + W.some(rng, 1, 3))
+        # a caption is a run of inline nodes like any other line of text (plain words, or styled / linked text, footnotes)
+        out.append("|+ " + (W.some(rng, 1, 3) if rng.random() < 0.5 else inline(rng, W, 1, allow_ref=rng.random() < 0.3)))
     for r in range(rows):
         out.append("|-")
         if r == 0 and rng.random() < 0.4:
@@ -765,6 +766,8 @@ def refname_doc(rng, W, ordinary=False):
     words), an empty use or an empty pair; at least one definition and one empty use; in running text, list items or table
     cells, optionally in different sections"""
     base = rng.choice(REF_BASES)
+    if ordinary:          # ... and is unique in the document (two such blocks, or a name of refname(), would define it twice)
+        base = "%s.%d" % (base, W.n)
     vs = name_variants(base)
     n = rng.randint(2, 6)
     kinds = ["def", "use"] + [rng.choice(["def", "use", "use", "pair"]) for _ in range(n - 2)]
@@ -916,6 +919,27 @@ def captioned_table_sweep():
             if i in (0, 2):
                 docs.append(captioned_table_text(a, body, [cap]))
                 docs.append(LEAD + captioned_table_text(a, body, [cap], "bottom"))
+    return docs
+
+
+# space 2: the table shapes below the size heuristics on which a table pass still acts (single column / single row are
+# dissolved, list-only rows are split, lonely colspans are fixed) x captions of 1..11 inline nodes x caption above / below
+ORDINARY_CAPTIONS = ["c1", "c1 '''c2'''", "c1 '''c2''' c3 [[Tc4|c5]] c6 ''c7''",
+                     "c1 '''c2''' c3 ''c4'' c5 [[Tc6]] c7 <u>c8</u> c9 <small>c10</small> c11", "c1<ref>c2 c3</ref> c4"]
+ORDINARY_SHAPES = {
+    "1x1": "|-\n| w1", "1x3": "|-\n| w1 || w2 || w3", "3x1": "|-\n| w1\n|-\n| w2\n|-\n| w3", "2x2": "|-\n| w1 || w2\n|-\n| w3 || w4",
+    "list-row": "|-\n|\n%s\n|\n* k1\n* k2\n|-\n| w1 || w2" % _items(7), "list-row-only": "|-\n|\n%s\n|\n* k1\n* k2" % _items(7),
+    "header": "|-\n! h1 !! h2\n|-\n| w1 || w2", "colspan": "|-\n| colspan=2 | w1\n|-\n| w2 || w3",
+    "images": "|-\n| [[File:a.png|w1]]\n|-\n| [[File:b.png|w2]]"}
+
+
+def ordinary_table_sweep():
+    docs = []
+    for name in sorted(ORDINARY_SHAPES):
+        for cap in ORDINARY_CAPTIONS:
+            for pos in ("top", "bottom"):
+                for lead in ("== s1 ==\ns2 s3\n\n", ""):
+                    docs.append(lead + captioned_table_text("", ORDINARY_SHAPES[name], [cap], pos) + "\ns4\n")
     return docs
 
 
